@@ -1,5 +1,5 @@
 """C15 - a node's path identifies that node; paths create what they name"""
-from props import comps_ytext as Y, oracles
+from props import comps_ytext as Y, comps_paths, oracles
 
 PID = "C15"
 LEVEL = "proof"
@@ -10,7 +10,7 @@ def components():
 
 
 def oracles_():
-    return [Y.PathQRT(), oracles.Paths()]
+    return [Y.PathQRT(), oracles.Paths(), comps_paths.PathsOps()]
 
 
 MANIFEST = {
@@ -18,7 +18,10 @@ MANIFEST = {
             "back as exactly that value by the path parser and by the XPath literal rule, for every value not containing both quote "
             "characters (refuted with a witness otherwise). Tie: extracted model vs lyd_path/lyd_find_path/lyd_find_xpath (T2). "
             "Every node of generated trees: path -> find_path/find_xpath returns exactly the node, new_path rebuilds the spine, "
-            "re-creation reports LY_EEXIST (API oracle, search).",
+            "re-creation reports LY_EEXIST (API oracle, search). PathsOps: the same on data, RPC / action request, reply and "
+            "notification trees over schemas with adversarial identifier shapes and two modules with equal local names, with "
+            "duplicates where they are legal and typed keys in non-canonical spelling; lyd_path() compared with an independent "
+            "rendering of the path; whole tree rebuilt from its paths.",
     "note": "Modelled C: lyd_path_list_predicate/leaflist_predicate quoting, literal scanning of lyxp_expr_parse and "
             "ly_path_compile_predicate. Path compilation/evaluation beyond literals is covered by the oracle only.",
     "technique": "Coq proof (quote/unquote round trip) + differential correspondence + API oracle on every node",
